@@ -67,6 +67,9 @@ pub fn tiny_snapshot(st: &VerifTinyLFUState, out: &mut Ints) {
 pub struct WTinySubj {
     pub c: WTinyLFUCache<TKey, TVal, VKeyHasher, VHasher, VHasher, VHasher>,
     pub khmode: u64,
+    /// the sizes and the number of samples that were asked for (the model is configured with these, not with
+    /// what the constructed cache reports)
+    pub req: [usize; 4],
 }
 pub fn mk_wtiny(w: usize, prot: usize, prob: usize, samples: usize, fp: f64, khmode: u64, hmode: u64) -> WTinySubj {
     let c = WTinyLFUCacheBuilder::with_hashers(
@@ -82,7 +85,7 @@ pub fn mk_wtiny(w: usize, prot: usize, prob: usize, samples: usize, fp: f64, khm
     .set_false_positive_ratio(fp)
     .finalize::<TVal>()
     .unwrap();
-    WTinySubj { c, khmode }
+    WTinySubj { c, khmode, req: [w, prot, prob, samples] }
 }
 impl Subject for WTinySubj {
     fn apply(&mut self, op: &[i128]) -> Ints {
@@ -102,6 +105,14 @@ impl Subject for WTinySubj {
                     != (c.cap(), c.len(), c.is_empty(), c.window_cache_cap(), c.window_cache_len(), c.main_cache_cap(), c.main_cache_len())
                 {
                     return vec![-7];
+                }
+                // ... and its estimator answers like the original's, key by key (same key hasher, same counters)
+                {
+                    let (t1, _, _) = c.verif_parts();
+                    let (t2, _, _) = c2.verif_parts();
+                    if (0..24u64).any(|k| t1.estimate(&KQ(k)) != t2.estimate(&KQ(k)) || t1.contains(&KQ(k)) != t2.contains(&KQ(k))) {
+                        return vec![-7];
+                    }
                 }
                 let old = std::mem::replace(c, c2);
                 let n = old.len() as u64;
@@ -147,11 +158,12 @@ impl Subject for WTinySubj {
         let (t, w, m) = self.c.verif_parts();
         let (prob, prot) = m.verif_parts();
         let st = t.verif_state();
+        let _ = (w, prot, prob);
         let mut cfg = vec![
-            w.cap() as i128,
-            prot.cap() as i128,
-            prob.cap() as i128,
-            st.samples as i128,
+            self.req[0] as i128,
+            self.req[1] as i128,
+            self.req[2] as i128,
+            self.req[3] as i128,
             self.khmode as i128,
             st.bloom_size_exp as i128,
             st.bloom_set_locs as i128,
@@ -165,10 +177,11 @@ impl Subject for WTinySubj {
 pub struct TinySubj {
     pub t: TinyLFU<TKey>,
     pub size: usize,
+    pub samples: usize,
     rewrite: Option<Ints>,
 }
 pub fn mk_tiny(size: usize, samples: usize, fp: f64) -> TinySubj {
-    TinySubj { t: TinyLFU::<TKey>::new(size, samples, fp).unwrap(), size, rewrite: None }
+    TinySubj { t: TinyLFU::<TKey>::new(size, samples, fp).unwrap(), size, samples, rewrite: None }
 }
 impl Subject for TinySubj {
     fn apply(&mut self, op: &[i128]) -> Ints {
@@ -237,7 +250,9 @@ impl Subject for TinySubj {
             }
             91 => {
                 let c = t.clone();
-                let same = c.verif_state() == t.verif_state();
+                // same counters, and the same answers key by key (the key hasher is part of the object)
+                let same = c.verif_state() == t.verif_state()
+                    && (0..24u64).all(|k| c.estimate(&KQ(k)) == t.estimate(&KQ(k)) && c.contains(&KQ(k)) == t.contains(&KQ(k)));
                 *t = c;
                 if same {
                     vec![]
@@ -257,7 +272,7 @@ impl Subject for TinySubj {
         let st = self.t.verif_state();
         let mut cfg = vec![
             self.size as i128,
-            st.samples as i128,
+            self.samples as i128,
             st.bloom_size_exp as i128,
             st.bloom_set_locs as i128,
         ];
